@@ -274,7 +274,20 @@ func (fsm *FSM) Snapshot() (raft.FSMSnapshot, error) {
 	compactionEnd := compactionStart.Add(-1 * exp)
 
 	tmpServer := ircserver.NewIRCServer("testnetwork", time.Now())
-	if oldState, ok := fsm.lastSnapshotState[first-1]; !ok {
+	// The previous snapshot state is stored under the index of the last
+	// message it includes. That index is not necessarily first-1: raft-internal
+	// log entries (which are not stored in ircstore) can lie in between.
+	// Hence, use the most recent state which does not include first.
+	var (
+		base      uint64
+		baseFound bool
+	)
+	for key := range fsm.lastSnapshotState {
+		if key < first && (!baseFound || key > base) {
+			base, baseFound = key, true
+		}
+	}
+	if !baseFound {
 		if first == 1 {
 			// This is the first snapshot which this RobustIRC network
 			// is taking, there cannot be previous state.
@@ -283,14 +296,14 @@ func (fsm *FSM) Snapshot() (raft.FSMSnapshot, error) {
 			glog.Errorf("No snapshot state containing index %d found. Unless you just upgraded this node from v0.3, this is a BUG.", first-1)
 		}
 	} else {
-		if _, err := tmpServer.Unmarshal(oldState); err != nil {
+		if _, err := tmpServer.Unmarshal(fsm.lastSnapshotState[base]); err != nil {
 			return nil, err
 		}
-		// All snapshot states but first-1 can now be deleted. first-1
+		// All snapshot states but base can now be deleted. base
 		// needs to be retained in case the snapshot which is
 		// currently in progress fails and needs to be repeated.
 		for key, _ := range fsm.lastSnapshotState {
-			if key == first-1 {
+			if key == base {
 				continue
 			}
 			delete(fsm.lastSnapshotState, key)
@@ -349,6 +362,10 @@ func (fsm *FSM) Snapshot() (raft.FSMSnapshot, error) {
 			}
 			fsm.ircstore.DeleteRange(i, i)
 		}
+
+		// Message i is now part of the state: in case all messages get
+		// compacted, the state must be stored as including the last one.
+		first = i + 1
 	}
 
 	state, err := tmpServer.Marshal(first - 1)
